@@ -419,3 +419,75 @@ MODULES["Iter"] = dict(
         dict(name="solve_bicgstab", file=SPR, impl=IT_IMPL, fn="solve_bicgstab"),
         dict(name="solve_qmr", file=SPR, impl=IT_IMPL, fn="solve_qmr"),
     ])
+
+# ---------------------------------------------------------------------------------------------------- Newton (Model/Newton.v): round two
+# Newton<f64> / Newton<Vec64> and Mat64::jacobian over any Arith (the model's NOps at NReal A: emb = id, mag = abs, divr = div).
+# `&dyn Fn(X) -> Y` parameters are function arguments X -> res Y (a closure may panic).  The model is instrumented (it also
+# returns the points at which the closures were called): the equality lemmas are erasure lemmas.
+# Callees: Vec64::norm_inf is the model's Newton.norm_inf (index panic on the empty vector, then the running maximum);
+# Mat64::jacobian is the model's jacobian with the call points dropped; Matrix::solve_basic(&mut self, b) is Model/Solve.v's
+# solve_basic, which returns the solution only -- the receiver is `killed` (any later read of it is refused).
+GTYPES.update({"ncfg_s": "(ncfg (T A) (T A))", "ncfg_v": "(ncfg (T A) (list (T A)))", "nres_s": "(nres (T A))", "nres_v": "(nres (list (T A)))"})
+RUST_TYPES += [(r"^Newton<f64>$", "ncfg_s"), (r"^Newton<Vec64>$", "ncfg_v"), (r"^Result<f64,f64>$", "nres_s"), (r"^Result<Vec64,Vec64>$", "nres_v")]
+for _c, _g in (("ncfg_s", "elem"), ("ncfg_v", "vec")):
+    FIELDS.update({(_c, "tol"): ("(tol {0})", "elem"), (_c, "delta"): ("(delta {0})", "elem"),
+                   (_c, "max_iter"): ("(max_iter {0})", "usize"), (_c, "guess"): ("(guess {0})", _g)})
+NWT, M_FUN = "src/newton.rs", "src/matrix/functions.rs"
+_NW_METHODS = {("vec", "norm_inf", 0): dict(g="Newton.norm_inf (NReal A) {0}", ret="elem", fallible=True),
+               ("mat", "solve_basic", 1): dict(g="solve_basic {0} {1}", ret="vec", fallible=True, args=["vec"], kills=["recv"])}
+_NW_PATHS = {("Mat64::jacobian", 3): dict(g="(let* jr := jacobian (NReal A) {1} {0} {2} in Ok (fst jr))", ret="mat", fallible=True, args=["vec", None, "elem"]),
+             ("Mat64::new", 3): dict(g="mat_new {0} {1} {2}", ret="mat", args=["usize", "usize", "elem"])}
+MODULES["Newton"] = dict(
+    imports="From OV Require Import Base.Panic Base.Arith Model.Vector Model.Matrix Model.Solve Model.Newton gen.SrcPrelude.",
+    spec=dict(lit2=True, methods=_NW_METHODS, paths=_NW_PATHS),
+    funcs=[
+        dict(name="newton_solve_f64", file=NWT, impl=r"^Newton<f64>$", fn="solve",
+             result_enum=dict(ty="nres_s", ok="NOk", err="NErr", ok_ty="elem", err_ty="elem")),
+        dict(name="newton_solve_vec64", file=NWT, impl=r"^Newton<Vec64>$", fn="solve",
+             result_enum=dict(ty="nres_v", ok="NOk", err="NErr", ok_ty="vec", err_ty="vec")),
+        dict(name="newton_solve_jacobian_vec64", file=NWT, impl=r"^Newton<Vec64>$", fn="solve_jacobian",
+             result_enum=dict(ty="nres_v", ok="NOk", err="NErr", ok_ty="vec", err_ty="vec")),
+        dict(name="jacobian_f64", file=M_FUN, impl=r"^Matrix<f64>$", fn="jacobian"),
+    ])
+
+# ---------------------------------------------------------------------------------------------------- Newton over Cmplx: round two
+# Newton<Cmplx> / Newton<Vector<Cmplx>> / Matrix::<Cmplx>::jacobian_cmplx: two scalar sorts, f64 = T (SA S) ("elem") and
+# Cmplx = Complex<f64> = T (CArith S) ("celem": the complex operators of Model/Complex.v through the Arith CArith S);
+# the model's NOps at NCplx S: emb d = Cmplx::new(d, 0.0) = mkC d zero, mag z = z.abs() = sqrt (abs_sqr z),
+# divr = Complex / f64 = cdiv_r.
+_r.SCALARS.add("celem")
+_r.LISTS["cvec"] = "celem"
+GTYPES.update({"celem": "(T CA)", "cvec": "(list (T CA))", "cmat": "(matrix CA)",
+               "ncfg_c": "(ncfg (T A) (T CA))", "ncfg_cv": "(ncfg (T A) (list (T CA)))", "nres_c": "(nres (T CA))", "nres_cv": "(nres (list (T CA)))"})
+RUST_TYPES += [(r"^Cmplx$", "celem"), (r"^Vector<Cmplx>$", "cvec"), (r"^Matrix<Cmplx>$", "cmat"),
+               (r"^Newton<Cmplx>$", "ncfg_c"), (r"^Newton<Vector<Cmplx>>$", "ncfg_cv"),
+               (r"^Result<Cmplx,Cmplx>$", "nres_c"), (r"^Result<Vector<Cmplx>,Vector<Cmplx>>$", "nres_cv")]
+for _c, _g in (("ncfg_c", "celem"), ("ncfg_cv", "cvec")):
+    FIELDS.update({(_c, "tol"): ("(tol {0})", "elem"), (_c, "delta"): ("(delta {0})", "elem"),
+                   (_c, "max_iter"): ("(max_iter {0})", "usize"), (_c, "guess"): ("(guess {0})", _g)})
+METHODS.update({("cvec", "size", 0): dict(g="length {0}", ret="usize"),
+                ("cmat", "set_col", 2): dict(g="set_col {0} {1} {2}", ret="unit", fallible=True, out=["recv"], args=["usize", "cvec"])})
+BINOPS.update({("-", "cvec", "cvec"): dict(g="vsub {0} {1}", ret="cvec", fallible=True),
+               ("/", "cvec", "celem"): dict(g="vdiv {0} {1}", ret="cvec", fallible=True),
+               ("/", "celem", "elem"): dict(g="cdiv_r {0} {1}", ret="celem", fallible=True)})
+ASSIGNOPS[("-=", "cvec", "cvec")] = dict(g="vsub_assign {0} {1}", ret="cvec", fallible=True)
+_NC_METHODS = {("cvec", "norm_inf", 0): dict(g="Newton.norm_inf (NCplx S) {0}", ret="elem", fallible=True),
+               ("celem", "abs", 0): dict(g="sqrt (abs_sqr {0})", ret="elem"),
+               ("cmat", "solve_basic", 1): dict(g="solve_basic {0} {1}", ret="cvec", fallible=True, args=["cvec"], kills=["recv"])}
+_NC_PATHS = {("Cmplx::new", 2): dict(g="(mkC {0} {1} : T CA)", ret="celem", atom=True, args=["elem", "elem"]),
+             ("Matrix::jacobian_cmplx", 3): dict(g="(let* jr := jacobian (NCplx S) {1} {0} (mkC {2} (@zero A)) in Ok (fst jr))", ret="cmat", fallible=True,
+                                                 args=["cvec", None, "elem"]),
+             ("Matrix::new", 3): dict(g="mat_new {0} {1} {2}", ret="cmat", args=["usize", "usize", "celem"])}
+MODULES["NewtonC"] = dict(
+    imports="From OV Require Import Base.Panic Base.Arith Model.Complex Model.Vector Model.Matrix Model.Solve Model.Newton gen.SrcPrelude.",
+    context=["Context {S : SArith}.", "Local Notation A := (SA S).", "Local Notation CA := (CArith S)."],
+    spec=dict(lit2=True, methods=_NC_METHODS, paths=_NC_PATHS),
+    funcs=[
+        dict(name="newton_solve_cmplx", file=NWT, impl=r"^Newton<Cmplx>$", fn="solve",
+             result_enum=dict(ty="nres_c", ok="NOk", err="NErr", ok_ty="celem", err_ty="celem")),
+        dict(name="newton_solve_vcmplx", file=NWT, impl=r"^Newton<Vector<Cmplx>>$", fn="solve",
+             result_enum=dict(ty="nres_cv", ok="NOk", err="NErr", ok_ty="cvec", err_ty="cvec")),
+        dict(name="newton_solve_jacobian_vcmplx", file=NWT, impl=r"^Newton<Vector<Cmplx>>$", fn="solve_jacobian",
+             result_enum=dict(ty="nres_cv", ok="NOk", err="NErr", ok_ty="cvec", err_ty="cvec")),
+        dict(name="jacobian_cmplx", file=M_FUN, impl=r"^Matrix<Cmplx>$", fn="jacobian_cmplx"),
+    ])
